@@ -53,6 +53,7 @@ type aPObj struct {
 	CP        int  `json:"cp"` // 0 Prevent, 1 IfNoController, 2 None
 	OwnerRefs bool `json:"ownerrefs"`
 	DryReject bool `json:"dryreject"`
+	ApplyDry404 bool `json:"applydry404,omitempty"` // the dry-run apply answers NotFound; the fallback dry-run create is accepted
 }
 
 // A third-party operation executed directly on the store.
@@ -101,6 +102,9 @@ type phaseObs struct {
 	NextRV   int64    `json:"next_rv"`
 	NextUID  int64    `json:"next_uid"`
 	Requests []string `json:"requests"`
+	// OtherWrites: non-dry-run write requests on member kinds with a verb the reconcilers never use
+	// (create, update, ...): each one is a write outside the apply / release-patch / delete paths.
+	OtherWrites []string `json:"other_writes"`
 }
 
 var cpNames = []corev1alpha1.CollisionProtection{
@@ -118,6 +122,9 @@ func (p aPObj) concrete() corev1alpha1.ObjectSetObject {
 	}
 	if p.DryReject {
 		md["annotations"] = map[string]any{dryRejectAnnotation: "true"}
+	}
+	if p.ApplyDry404 {
+		md["annotations"] = map[string]any{applyDry404Annotation: "true"}
 	}
 	return corev1alpha1.ObjectSetObject{
 		Object: unstructured.Unstructured{Object: map[string]any{
@@ -392,6 +399,21 @@ func eventsFromLog(log []*Request) []aEvent {
 	return evs
 }
 
+func otherWrites(log []*Request) []string {
+	out := []string{}
+	for _, r := range log {
+		if r.DryRun || abstractKey(r.Key).GK == 0 {
+			continue
+		}
+		switch r.Verb {
+		case "get", "list", "patch-apply", "patch-merge", "delete":
+		default:
+			out = append(out, r.Verb+" "+r.Key.String()+" "+r.Err)
+		}
+	}
+	return out
+}
+
 func requestSummary(log []*Request) []string {
 	out := []string{}
 	for _, r := range log {
@@ -480,6 +502,7 @@ func init() {
 		}
 		obs.Events = eventsFromLog(s.Log)
 		obs.Requests = requestSummary(s.Log)
+		obs.OtherWrites = otherWrites(s.Log)
 		obs.Post = abstractStore(s)
 		obs.NextRV, obs.NextUID = s.Counters()
 		return obs, nil
